@@ -280,3 +280,79 @@ def gen_ms(rng):
 def gen_case(rng, **kw):
     objs, bodies = gen_program(rng, **kw)
     return "prog %s %s %d %s %s" % (gen_ms(rng), gen_script(rng), rng.getrandbits(32), objs, bodies)
+
+
+# ---------------- scenario stream: deadlock / detached / abort / park interactions ----------------
+SCN_OBJS = "a0,s0:f,s1:u,m,m,v,cu,e,b2"     # 0 atomic, 1 fair sem (0 permits), 2 unfair sem (1), 3,4 mutexes, 5 condvar, 6 channel (+7), 8 barrier(2)
+
+
+def gen_scenario(rng):
+    """Programs built from the ingredients C03/C17 quantify over: tasks that block for ever (empty semaphore, park, recv
+    without sender, lock-order inversion, lone barrier, un-notified condvar), detached and aborted futures, parked
+    threads whose only waker is a detached task, all-pending futures.  Valid by construction (no implicit panics)."""
+    nb = rng.randint(2, 4)
+    kinds = [None] + [rng.choice(["sp", "as", "as"]) for _ in range(1, nb)]
+    rx = rng.randrange(nb)
+
+    def filler(b):
+        c = ["yd", "yd", "a0.add.1", "sv1", "sr2.1;sv2", "ut0", "rn"]
+        if kinds[b] == "as":
+            c += ["ay", "ay"]
+        return rng.choice(c)
+
+    def blocker(b, held):
+        c = ["sa1.1", "pk", "pk", "bw8", "sr1.1"]
+        if b == rx:
+            c += ["rc6"]
+        else:
+            c += ["sd6.%d.%d" % (b % 3, rng.randrange(1, 9))] if b < 3 else []
+        if not held:
+            c += [rng.choice(["lk3;yd;lk4;ul4;ul3", "lk4;yd;lk3;ul3;ul4"]), "lk3;cw5.3;ul3", "lk3;cn5;ul3", "lk3;yd;ul3"]
+        return rng.choice(c)
+
+    parent = [None] + [0 if rng.random() < 0.65 else rng.randrange(j) for j in range(1, nb)]
+    bodies = []
+    for b in range(nb):
+        ops = []
+        kids = [j for j in range(1, nb) if parent[j] == b]
+        if b > 0:
+            for _ in range(rng.randint(0, 2)):
+                ops.append(filler(b) if rng.random() < 0.5 else blocker(b, False))
+        handles = []   # (kind, index among that kind)
+        nsp = nas = 0
+        for j in kids:
+            ops.append("%s%d" % (kinds[j], j))
+            if kinds[j] == "sp":
+                handles.append(("sp", nsp)); nsp += 1
+            else:
+                handles.append(("as", nas)); nas += 1
+            if rng.random() < 0.4:
+                ops.append(filler(b))
+        rng.shuffle(handles)
+        for k, h in handles:
+            if rng.random() < 0.35:
+                ops.append(filler(b) if rng.random() < 0.6 else blocker(b, False))
+            if k == "sp":
+                r = rng.random()
+                if r < 0.5:
+                    ops.append("jn%d" % h)
+                elif r < 0.7:
+                    ops.append("uh%d" % h)
+            else:
+                r = rng.random()
+                if r < 0.25:
+                    ops.append("dh%d" % h)
+                elif r < 0.45:
+                    ops.extend(["ab%d" % h, rng.choice(["aw%d" % h, "dh%d" % h, "yd"])])
+                elif r < 0.7:
+                    ops.append("aw%d" % h)
+                elif r < 0.8:
+                    ops.extend(["if%d" % h, "dh%d" % h])
+        if b == 0:
+            if rng.random() < 0.6:
+                ops.append(blocker(0, False))
+        else:
+            for _ in range(rng.randint(0, 2)):
+                ops.append(filler(b) if rng.random() < 0.5 else blocker(b, False))
+        bodies.append(";".join(ops) if ops else "-")
+    return "prog %s %s %d %s %s" % (gen_ms(rng) if rng.random() < 0.3 else "none", gen_script(rng), rng.getrandbits(32), SCN_OBJS, "|".join(bodies))
